@@ -706,7 +706,11 @@ def run(ctx):
           "and_v", "and_b", "or_b", "or_c", "or_d", "or_i", "andor"}
     for n in spend_nodes[:ctx.n(150, 3000)]:
         text = str(n)
-        in_s1 = set(G.histogram(n)) <= S1
+        frs = set(G.histogram(n))
+        in_s1 = frs <= S1
+        # the evaluator model runs every fragment (the quorums too, without theorems); a P2WSH script whose op count
+        # is near the limit AND holds a multi() is left out: the model charges every OP_CHECKMULTISIG, taken or not
+        in_exec = in_s1 or not ("multi" in frs and (n.max_ops or 0) > 170)
         for a in SP.all_avail(n, n.context, rng, limit=ctx.n(12, 40)):
             w = {"expr": text, "context": n.context, "avail": a}
             r = SP.spend_check(text, n.context, a)
@@ -720,7 +724,7 @@ def run(ctx):
                 sg = ",".join(f"{k.hex()}:{v.hex()}" for k, v in sorted(sm0.items())) or "-"
                 sat_lines.append(f"sat {n.context} {sg} {pre} {a['locktime']} {a['sequence']} {a['version']} "
                                  + " ".join(tokens(n)))
-            if in_s1 and len(exec_lines) < exec_cap:
+            if in_exec and len(exec_lines) < exec_cap:
                 # the model's verdict (`accepts`: the semantics T3/T4 are proved against, plus the interpreter's
                 # limits) against the real engine's, on the produced witness AND on witnesses the engine refuses
                 sm = SP._signatures(SP._prepare(text, n.context), n.context,
@@ -763,6 +767,9 @@ def run(ctx):
         if r.get("produced"):
             exec_lines.append(f"exec P2WSH {sigs} " + ",".join(r["stack"]) + " 0 0 2 " + " ".join(tokens(dn)))
             ctx.count("exec.deep", f"max_ops={dn.max_ops} limits={dn.is_within_resource_limits} engine={r['engine_ok']}")
+    for ln in exec_lines:
+        tk = set(ln.split(" ")[7:])
+        ctx.count("exec.fragments", "with thresh/multi/multi_a" if tk & {"thresh", "multi", "multi_a"} else "covered set only")
     ctx.stream("exec", exec_lines, nontrivial=lambda line, out: True)
     ctx.stream("sat", sat_lines, nontrivial=lambda line, out: out.startswith("ok"))
     # the bounds theorem (satisfy_within_bounds_partial) assumes the chosen candidate is canonical: how often is it?
